@@ -231,3 +231,37 @@ func VH_C08_fin_overtaking_data_does_not_end_the_stream() {
 	verifAssert(!r.recvWindow.closed.Load(), "C08: a FIN that overtook earlier data does not end the incoming stream")
 	verifAssert(r.tubeState == st, "C08: a FIN that overtook earlier data does not move the tube's close state (end-of-stream only after all earlier bytes were delivered)")
 }
+
+// One retransmission-timer tick of the tube's send loop keeps the sender's
+// frames equal to the unacknowledged suffix of the stream: a tick may
+// retransmit, back off and shrink the window, but it must not discard data the
+// peer has not acknowledged (that would make the stream impossible to complete).
+//
+//verif:prop C08
+//verif:replay none
+//verif:bounds one timer tick of Reliable.send with 1..2 unacknowledged frames satisfying the sender invariant, RTO symbolic (any duration), congestion state symbolic; the loop body is run until it blocks again
+//verif:cover ticked
+//verif:timeout 600
+func VH_C08_timer_tick_keeps_unacknowledged_frames() {
+	log := logrus.NewEntry(logrus.New())
+	r := &Reliable{recvWindow: newReceiver(log), closed: make(chan struct{}), sendDone: make(chan struct{}), sendQueue: make(chan []byte, 16), prioritySendQueue: make(chan []byte, 16), log: log}
+	k := verifPick("frames", 1, 2)
+	r.sender = c11Sender(k)
+	tick := make(chan time.Time, 1)
+	tick <- time.Time{}
+	r.sender.RetransmitTicker = &time.Ticker{C: tick}
+	r.sender.RTO = time.Duration(verifU64("rto") >> 2)
+	r.sender.RTT = initialRTT
+	r.tubeState = initiated
+	first := r.sender.frames[0].frame
+	ack := r.sender.ackNo
+	verifOnBlock(func() {
+		verifCover("ticked")
+		verifAssert(r.sender.ackNo == ack, "C08: a timer tick does not move the acknowledgement number")
+		verifAssert(len(r.sender.frames) == k, "C08: a timer tick never discards frames the peer has not acknowledged")
+		if len(r.sender.frames) > 0 {
+			verifAssert(r.sender.frames[0].frame == first, "C08: the oldest unacknowledged frame stays at the head of the retransmission buffer")
+		}
+	})
+	r.send()
+}
